@@ -500,5 +500,161 @@ fn c13_per_ip_limit_exact() {
     assert!(r == want, "C13/per_ip/is_min_of_cap_and_floor_of_size_times_fraction");
 }
 
+// ---------------------------------------------------------------------------------------------
+// NATIVE FAILING-INPUT SEARCH for C13 (used to attach a concrete history to a failed obligation of the
+// Verus unit `ipdiv`, and to decide when that proof no longer goes through): random interleavings of
+// add / remove / set-network-size over a handful of IPv6 and IPv4 addresses sharing prefixes, with
+// small caps, checked against a counting model written from the statement.
+// ---------------------------------------------------------------------------------------------
+#[cfg(test)]
+mod search {
+    use super::*;
+    use std::collections::HashMap as Map;
+
+    struct Rng(u64);
+    impl Rng {
+        fn next(&mut self) -> u64 {
+            self.0 ^= self.0 << 13;
+            self.0 ^= self.0 >> 7;
+            self.0 ^= self.0 << 17;
+            self.0
+        }
+        fn below(&mut self, n: u64) -> u64 {
+            self.next() % n
+        }
+    }
+    fn half(cap: usize, strict: bool) -> usize {
+        if strict { std::cmp::max(1, cap / 2) } else { cap }
+    }
+
+    #[derive(Default)]
+    struct Model {
+        c64: Map<Ipv6Addr, usize>,
+        c48: Map<Ipv6Addr, usize>,
+        c32: Map<Ipv6Addr, usize>,
+        v4_32: Map<Ipv4Addr, usize>,
+        v4_24: Map<Ipv4Addr, usize>,
+        v4_16: Map<Ipv4Addr, usize>,
+        asn: Map<u32, usize>,
+    }
+
+    #[test]
+    fn verif_search_c13() {
+        let seed: u64 = std::env::var("VERIF_SEED").ok().and_then(|s| s.parse().ok()).unwrap_or(0);
+        let mut r = Rng(0x9e37_79b9_7f4a_7c15 ^ seed.wrapping_mul(0x1000_0000_01b3) | 1);
+        let rounds: usize = std::env::var("VERIF_SEARCH_ROUNDS").ok().and_then(|s| s.parse().ok()).unwrap_or(1500);
+        for round in 0..rounds {
+            let cfg = IPDiversityConfig {
+                max_nodes_per_64: 1 + r.below(3) as usize,
+                max_nodes_per_48: 1 + r.below(5) as usize,
+                max_nodes_per_32: 1 + r.below(7) as usize,
+                max_nodes_per_ipv4_32: 1 + r.below(3) as usize,
+                max_nodes_per_ipv4_24: 1 + r.below(6) as usize,
+                max_nodes_per_ipv4_16: 1 + r.below(9) as usize,
+                max_per_ip_cap: 1 + r.below(4) as usize,
+                max_network_fraction: [0.005, 0.01, 0.5][r.below(3) as usize],
+                max_nodes_per_asn: 1 + r.below(7) as usize,
+                ..IPDiversityConfig::default()
+            };
+            let mut e = IPDiversityEnforcer::new(cfg.clone());
+            let mut m = Model::default();
+            let mut net = 0usize;
+            let mut hist = String::new();
+            let mut admitted6: Vec<IPAnalysis> = Vec::new();
+            let mut admitted4: Vec<IPv4Analysis> = Vec::new();
+            for _ in 0..(1 + r.below(40)) {
+                match r.below(10) {
+                    0 => {
+                        net = [0usize, 100, 200, 400, 1000, 100_000][r.below(6) as usize];
+                        e.set_network_size(net);
+                        hist.push_str(&format!("size({}) ", net));
+                    }
+                    1 | 2 if !admitted6.is_empty() => {
+                        let a = admitted6.swap_remove(r.below(admitted6.len() as u64) as usize);
+                        e.remove_node(&a);
+                        for (mp, k) in [(&mut m.c64, a.subnet_64), (&mut m.c48, a.subnet_48), (&mut m.c32, a.subnet_32)] {
+                            let c = mp.get(&k).copied().unwrap_or(0);
+                            if c <= 1 { mp.remove(&k); } else { mp.insert(k, c - 1); }
+                        }
+                        if let Some(asn) = a.asn {
+                            let c = m.asn.get(&asn).copied().unwrap_or(0);
+                            if c <= 1 { m.asn.remove(&asn); } else { m.asn.insert(asn, c - 1); }
+                        }
+                        hist.push_str(&format!("rm6({}) ", a.subnet_64));
+                    }
+                    3 if !admitted4.is_empty() => {
+                        let a = admitted4.swap_remove(r.below(admitted4.len() as u64) as usize);
+                        e.remove_ipv4(&a);
+                        for (mp, k) in [(&mut m.v4_32, a.ip_addr), (&mut m.v4_24, a.subnet_24), (&mut m.v4_16, a.subnet_16)] {
+                            let c = mp.get(&k).copied().unwrap_or(0);
+                            if c <= 1 { mp.remove(&k); } else { mp.insert(k, c - 1); }
+                        }
+                        if let Some(asn) = a.asn {
+                            let c = m.asn.get(&asn).copied().unwrap_or(0);
+                            if c <= 1 { m.asn.remove(&asn); } else { m.asn.insert(asn, c - 1); }
+                        }
+                        hist.push_str(&format!("rm4({}) ", a.ip_addr));
+                    }
+                    4 | 5 | 6 => {
+                        // IPv6 candidate: 2 /32s x 2 /48s x 3 /64s (4th hextet non-zero so /64 != /48)
+                        let addr = Ipv6Addr::new(0x2001, 0xdb8 + r.below(2) as u16, 0xaa00 + r.below(2) as u16, 1 + r.below(3) as u16, 0, 0, 0, 1 + r.below(4) as u16);
+                        let mut a = e.analyze_ip(addr).expect("analysis");
+                        a.asn = [None, Some(64500), Some(64501)][r.below(3) as usize];
+                        a.is_hosting_provider = r.below(3) == 0;
+                        a.is_vpn_provider = r.below(5) == 0;
+                        let strict = a.is_hosting_provider || a.is_vpn_provider;
+                        let below = m.c64.get(&a.subnet_64).copied().unwrap_or(0) < half(cfg.max_nodes_per_64, strict)
+                            && m.c48.get(&a.subnet_48).copied().unwrap_or(0) < half(cfg.max_nodes_per_48, strict)
+                            && m.c32.get(&a.subnet_32).copied().unwrap_or(0) < half(cfg.max_nodes_per_32, strict)
+                            && a.asn.is_none_or(|x| m.asn.get(&x).copied().unwrap_or(0) < half(cfg.max_nodes_per_asn, strict));
+                        let can = e.can_accept_node(&a);
+                        let ok = e.add_node(&a).is_ok();
+                        hist.push_str(&format!("add6({} asn={:?} strict={})={} ", addr, a.asn, strict, ok));
+                        if can != below || ok != below {
+                            panic!("VERIF-SEARCH-HIT C13/v6/admitted_iff_every_level_below_its_cap round={} expected_admit={} can_accept={} add_ok={} caps(64/48/32/asn)={}/{}/{}/{} history=[{}]", round, below, can, ok, cfg.max_nodes_per_64, cfg.max_nodes_per_48, cfg.max_nodes_per_32, cfg.max_nodes_per_asn, hist);
+                        }
+                        if ok {
+                            *m.c64.entry(a.subnet_64).or_insert(0) += 1;
+                            *m.c48.entry(a.subnet_48).or_insert(0) += 1;
+                            *m.c32.entry(a.subnet_32).or_insert(0) += 1;
+                            if let Some(x) = a.asn { *m.asn.entry(x).or_insert(0) += 1; }
+                            admitted6.push(a);
+                        }
+                    }
+                    _ => {
+                        let addr = Ipv4Addr::new(10, r.below(2) as u8, r.below(2) as u8, 1 + r.below(3) as u8);
+                        let mut a = e.analyze_ipv4(addr).expect("analysis");
+                        a.asn = [None, Some(64500), Some(64501)][r.below(3) as usize];
+                        a.is_hosting_provider = r.below(3) == 0;
+                        a.is_vpn_provider = r.below(5) == 0;
+                        let strict = a.is_hosting_provider || a.is_vpn_provider;
+                        let per_ip = std::cmp::min(cfg.max_per_ip_cap, std::cmp::max(1, (net as f64 * cfg.max_network_fraction).floor() as usize));
+                        let l32 = half(per_ip, strict); // the /32 cap is the network-size rule itself: min(max_per_ip_cap, max(1, floor(size * fraction)))
+                        let l24 = half(std::cmp::min(cfg.max_nodes_per_ipv4_24, per_ip * 3), strict);
+                        let l16 = half(std::cmp::min(cfg.max_nodes_per_ipv4_16, per_ip * 10), strict);
+                        let below = m.v4_32.get(&a.ip_addr).copied().unwrap_or(0) < l32
+                            && m.v4_24.get(&a.subnet_24).copied().unwrap_or(0) < l24
+                            && m.v4_16.get(&a.subnet_16).copied().unwrap_or(0) < l16
+                            && a.asn.is_none_or(|x| m.asn.get(&x).copied().unwrap_or(0) < half(cfg.max_nodes_per_asn, strict));
+                        let can = e.can_accept_ipv4(&a);
+                        let ok = e.add_ipv4(&a).is_ok();
+                        hist.push_str(&format!("add4({} asn={:?} strict={})={} ", addr, a.asn, strict, ok));
+                        if can != below || ok != below {
+                            panic!("VERIF-SEARCH-HIT C13/v4/admitted_iff_every_level_below_its_scaled_cap round={} expected_admit={} can_accept={} add_ok={} limits(32/24/16)={}/{}/{} net={} history=[{}]", round, below, can, ok, l32, l24, l16, net, hist);
+                        }
+                        if ok {
+                            *m.v4_32.entry(a.ip_addr).or_insert(0) += 1;
+                            *m.v4_24.entry(a.subnet_24).or_insert(0) += 1;
+                            *m.v4_16.entry(a.subnet_16).or_insert(0) += 1;
+                            if let Some(x) = a.asn { *m.asn.entry(x).or_insert(0) += 1; }
+                            admitted4.push(a);
+                        }
+                    }
+                }
+            }
+        }
+    }
+}
+
 #[cfg(test)]
 include!("/verif/.build/replay/security.rs");
